@@ -149,18 +149,20 @@ async fn run_case(seed: u64, idx: u64, world: &[Node], thorough: bool) -> Outcom
     let mut in_flight: BTreeMap<Vec<u8>, (usize, u64)> = BTreeMap::new(); // request id -> (peer, sent at)
     let mut asked: Vec<usize> = vec![];
     let mut answered: BTreeSet<usize> = BTreeSet::new();
-    let mut silent: Vec<(Vec<u8>, usize)> = vec![];
+    let mut silent: Vec<(Vec<u8>, usize, Vec<u64>)> = vec![];
     // candidates the lookup learned of from answers delivered while their request was in flight
     let mut reported: BTreeSet<usize> = BTreeSet::new();
     let mut removed: Vec<usize> = vec![];
     let mut ever_many = false;
     let mut now = 0u64;
     let style = if timeout_case { 4 } else { rng.below(4) }; // 0: mostly answers, 1: mixed, 2: mostly failures, 3: mostly silence, 4: silence only
+    let mut pending_msgs: Vec<HandlerIn> = vec![];
     let mut steps = 0;
     let max_steps = if thorough { 4000 } else { 1500 };
     while done.lock().unwrap().is_empty() && steps < max_steps {
         steps += 1;
-        let msgs = svc.drain();
+        let mut msgs = std::mem::take(&mut pending_msgs);
+        msgs.extend(svc.drain());
         for m in msgs {
             if let HandlerIn::Request(contact, req) = m {
                 let pid = contact.node_id().raw();
@@ -222,7 +224,7 @@ async fn run_case(seed: u64, idx: u64, world: &[Node], thorough: bool) -> Outcom
                                 in_flight.remove(&req.id.0);
                             }
                             _ => {
-                                silent.push((req.id.0.clone(), pi));
+                                silent.push((req.id.0.clone(), pi, distances.clone()));
                             }
                         }
                     }
@@ -231,6 +233,28 @@ async fn run_case(seed: u64, idx: u64, world: &[Node], thorough: bool) -> Outcom
             }
         }
         settle().await;
+        // now and then the handler asks who some node is (an undecryptable packet arrived in its name):
+        // the record the service supplies is that node's own record, whatever records of OTHER nodes
+        // the running lookup holds - it becomes the key the handshake is verified with (C01)
+        if rng.chance(1, 5) {
+            let j = if !table.is_empty() && rng.chance(2, 3) { *rng.pick(&table) } else { rng.below(world.len() as u64) as usize };
+            let na = NodeAddress { socket_addr: world[j].enr.udp4_socket().unwrap().into(), node_id: world[j].enr.node_id() };
+            let mut nonce = [0u8; 12];
+            nonce.copy_from_slice(&rng.bytes(12));
+            let _ = svc.inject(HandlerOut::WhoAreYou(discv5::verif::handler::make_whoareyou_ref(na, nonce)));
+            settle().await;
+            for m in svc.drain() {
+                match m {
+                    HandlerIn::WhoAreYou(r, Some(e)) => {
+                        if e.node_id() != r.0.node_id {
+                            fails.push(("C01".into(), "the service answered a who-are-you query about node X with the record of another node (the handshake claiming X would be verified with that node's key)".into()));
+                        }
+                    }
+                    HandlerIn::WhoAreYou(..) => {}
+                    other => pending_msgs.push(other),
+                }
+            }
+        }
         // now and then a node enters the routing table while the lookup is running (the user adds it)
         if rng.chance(1, 4) && table.len() < 60 {
             let j = rng.below(world.len() as u64) as usize;
@@ -269,7 +293,7 @@ async fn run_case(seed: u64, idx: u64, world: &[Node], thorough: bool) -> Outcom
             continue;
         }
         if !silent.is_empty() && rng.chance(1, 6) {
-            let (rid, pi) = silent.remove(0);
+            let (rid, pi, _) = silent.remove(0);
             let na = NodeAddress { socket_addr: world[pi].enr.udp4_socket().unwrap().into(), node_id: world[pi].enr.node_id() };
             if rng.chance(1, 2) {
                 let _ = svc.inject(HandlerOut::Response(na, Box::new(Response { id: RequestId(rid.clone()), body: ResponseBody::Nodes { total: 1, nodes: vec![] } })));
@@ -332,6 +356,22 @@ async fn run_case(seed: u64, idx: u64, world: &[Node], thorough: bool) -> Outcom
         }
         if !timeout_case && now > query_timeout + 60_000 {
             fails.push(("C09".into(), "the lookup outlived the query timeout by more than a minute".into()));
+        }
+    }
+    // C11: a responder that returns records at other distances is banned - also when its answer
+    // arrives after the lookup that asked has ended
+    if !results.is_empty() {
+        for (rid, pi, ds) in silent.iter().take(2) {
+            let off = (0..world.len()).find(|j| *j != *pi && !ds.contains(&log2d(&world[*j].id, &world[*pi].id)));
+            if let Some(j) = off {
+                let na = NodeAddress { socket_addr: world[*pi].enr.udp4_socket().unwrap().into(), node_id: world[*pi].enr.node_id() };
+                let _ = svc.inject(HandlerOut::Response(na, Box::new(Response { id: RequestId(rid.clone()), body: ResponseBody::Nodes { total: 1, nodes: vec![world[j].enr.clone()] } })));
+                settle().await;
+                let _ = svc.drain();
+                if !ban_snapshot().1.contains(&world[*pi].enr.node_id()) {
+                    fails.push(("C11".into(), "a responder that returned a record at a distance that was not requested was not banned (its answer arrived after the lookup had ended)".into()));
+                }
+            }
         }
     }
     svc.task.abort();
